@@ -413,6 +413,9 @@ class Gen:
                 npos = min(npos, k)
                 continue
             val = self.expr(f, m, max(0, depth - 1), avoid_names)
+            if self.flag("cmp_args") and self.b(1, 4) and val[0] in ("local", "ent"):
+                # a comparison written directly as an argument: `f(count == 0)` is not a keyword argument
+                val = ("cmp", "==", val, self.expr(f, m, 0, avoid_names))
             if k < npos:
                 pos.append(val)
             else:
@@ -915,7 +918,7 @@ def _inherited(cls, field):
     return out
 
 
-PFLAGS = ["header_collision", "package", "classes", "inheritance", "relative", "comprehensions", "two_comps_one_line", "nested", "global_stmt", "decoys", "dunder_call", "hanging_layout", "docstrings"]
+PFLAGS = ["header_collision", "package", "classes", "inheritance", "relative", "comprehensions", "two_comps_one_line", "nested", "global_stmt", "decoys", "dunder_call", "hanging_layout", "docstrings", "cmp_args"]
 
 
 @st.composite
